@@ -1148,6 +1148,12 @@ def _():
     sh, inv, skw, stxt, axes, arg = _corr_expr(fn, "corr")
     out += _fp("full_corr_shift", sh) + _fp("full_corr_inverse", inv) + _fp("full_corr_s", stxt) + _fp("full_corr_axes", axes)
     out += _fp("full_corr_spec", ast.unparse(find_assign(fn, "corrspec").value))
+    return out
+
+
+@fragment("Eval", "getcorr_fft")
+def _():
+    out = ""
     fn = find_def(CC, "get_correlation")
     ret = [s for s in stmts_of(fn) if isinstance(s, ast.Return)][0].value
     if not (isinstance(ret, ast.Call) and isinstance(ret.args[0], ast.Call)):
